@@ -795,6 +795,9 @@ class Manager:
         # TODO: Refactor this method.
 
         value = None
+        # events fired by this step are effects of the task's event
+        handling = self._currently_handling
+        self._currently_handling = event
         try:
             value = next(task)
             if isinstance(value, CallValue):
@@ -876,6 +879,8 @@ class Manager:
                 self.fire(event.child('failure', event, err), *event.channels)
 
             self.fire(exception(*err, handler=None, fevent=event))
+        finally:
+            self._currently_handling = handling
 
     def tick(self, timeout=-1):
         """
